@@ -17,3 +17,19 @@ def run(ctx):
         bfs = [("txt3", txt, 3), ("all2", allr, 2)]
         walks = [dict(label="walk", tags="", walks=40, plies=80, shards=28)]
     board_pipeline(ctx, bfs, walks)
+    # clock sweep: every value 0..9999 in both clock fields (thorough), a seeded quarter in quick
+    import os
+    from vlib import ToolError
+    stride = 4 if ctx.tier == "quick" else 1
+    res = ctx.tlc("ClockSweep", "ClockSweep.cfg", env={"VERIF_STRIDE": stride, "VERIF_PHASE": ctx.seed % stride}, workers=4, timeout=900, name="clocks")
+    if ctx.tlc_hard_errors(res) or res["violated"]:
+        raise ToolError("ClockSweep failed: %s" % (res["errors"] + res["violated"])[:3])
+    h = ctx.harness(["replay-clocks"], stdin_path=res["out_path"])
+    ctx.absorb(h)
+    n = (h["summary"] or {"counts": {"lines": 0}})["counts"]["lines"]
+    ctx.cov["states"] += res["distinct"]
+    ctx.cov["transitions"] += res["generated"]
+    ctx.cov["evaluations"] += n
+    ctx.cov["traces_validated_against_impl"] += n
+    ctx.cov["steps"].append({"step": "clock sweep", "values": n, "exhaustive": stride == 1})
+    os.remove(res["out_path"])
